@@ -92,7 +92,7 @@ def model_stage(ctx):
         (run_sim, ("sim_seq", "KVSim.tla", "Sim_seq.cfg", 60 if q else 700, 14, ctx.seed * 10 + 1)),
         (run_sim, ("sim_seq2", "KVSim.tla", cfg_variant("Sim_seq_b.cfg", "Sim_seq.cfg", [("Depth = 14", "Depth = 22")]),
                    40 if q else 500, 22, ctx.seed * 10 + 2)),
-        (run_sim, ("sim_conc", "KVConcSim.tla", "Sim_conc.cfg", 120 if q else 1500, 16, ctx.seed * 10 + 3)),
+        (run_sim, ("sim_conc", "KVConcSim.tla", "Sim_conc.cfg", 120 if q else 2500, 16, ctx.seed * 10 + 3)),
     ]
     if not q:
         jobs += [(run_mc, ("asis", "MCKVSeek.tla", "MC_seek_asis.cfg", T, w)),        # larger key / range universe, 2 layers
@@ -262,8 +262,8 @@ def judge_sequential(ctx, res):
             # An unclassified disagreement on LevelDB only counts if it reproduces on a fresh database: the pinned goleveldb
             # was seen to return stale data nondeterministically (background compaction) under transaction churn - see the
             # report of C09 and TestLevelDBChurn; a defect of the code under test is deterministic and reproduces.
-            # Decided once per history (first disagreement), for at most 8 histories per run.
-            if s not in reconfirm.setdefault("hist", {}) and len(reconfirm["hist"]) < 8:
+            # Decided once per history (first disagreement), for at most 8 (quick) / 60 (thorough) histories per run.
+            if s not in reconfirm.setdefault("hist", {}) and len(reconfirm["hist"]) < (8 if ctx.quick() else 60):
                 reconfirm["n"] = reconfirm.get("n", 0) + 1
                 reconfirm["hist"][s] = reproduces(ctx, init, hist)
                 if not reconfirm["hist"][s]:
@@ -334,7 +334,7 @@ def judge_concurrent(ctx, res):
         init = events[s]
         if init["backend"] == "leveldb" and s not in failing_elsewhere:
             # only the LevelDB run of this schedule disagrees: it counts if it reproduces on a fresh database
-            if s not in reconfirm.setdefault("chist", {}) and len(reconfirm["chist"]) < 8:
+            if s not in reconfirm.setdefault("chist", {}) and len(reconfirm["chist"]) < (8 if ctx.quick() else 60):
                 reconfirm["chist"][s] = reproduces_conc(ctx, events[s:li + 1])
                 if not reconfirm["chist"][s]:
                     ctx.spec_drift.append({"what": "LevelDB-only disagreement of a gated schedule did not reproduce (goleveldb nondeterminism)",
@@ -506,7 +506,7 @@ def run(ctx):
     sims = sims[: (80 if q else 1000)]
     csims = dedupe(m["sim_conc"])
     rnd.shuffle(csims)
-    csims = csims[: (150 if q else 1500)]
+    csims = csims[: (150 if q else 2500)]
 
     ind = os.path.join(ctx.work, "in-c09")
     os.makedirs(ind)
@@ -522,7 +522,7 @@ def run(ctx):
     json.dump(basic + torn_pick + csims, open(os.path.join(ind, "conc.json"), "w"))
 
     # real code, sequential
-    res = ctx.go_driver("c09kv", "TestDriver", env={"VERIF_IN": ind, "VERIF_RANDOM": 120 if q else 1500,
+    res = ctx.go_driver("c09kv", "TestDriver", env={"VERIF_IN": ind, "VERIF_RANDOM": 120 if q else 2500,
                                                     "VERIF_READS": 6 if q else 8}, timeout=3000)
     ctx.absorb(res)
     events, fails = judge_sequential(ctx, res)
